@@ -58,6 +58,12 @@ def pool_of(sim, mw) -> UniV3Pool:
     t0 = sim.token(mw["token0"])
     t1 = sim.token(mw["token1"])
     q = sim.token(mw["quote"])
+    if mw.get("token_style") == "addressed_pool_plain_quote":
+        # the pool's tokens carry contract addresses (as when they are shared with a lending market), the quote token is
+        # named by a separate TokenInfo without one (tokens are identified by their symbol)
+        t0 = TokenInfo(t0.name, t0.decimal, "0x%040x" % (0xA0 + len(t0.name)))
+        t1 = TokenInfo(t1.name, t1.decimal, "0x%040x" % (0xB0 + len(t1.name)))
+        q = TokenInfo(q.name.lower(), q.decimal)
     return UniV3Pool(t0, t1, mw["fee"], q)
 
 
